@@ -123,7 +123,13 @@ func Gen(seed int64, idx int, o GenOpts) *History {
 	n := 8 + rng.Intn(o.MaxSteps-7)
 	k := 0
 	pay := func() string { k++; return fmt.Sprintf("%d.%d/%d", seed, idx, k) }
-	app := func(r int) Step { return Step{Op: "append", R: r, PC: pcs[rng.Intn(len(pcs))], Payload: pay()} }
+	app := func(r int) Step {
+		s := Step{Op: "append", R: r, PC: pcs[rng.Intn(len(pcs))], Payload: pay()}
+		if o.Failures && rng.Intn(30) == 0 {
+			s.Payload = "" // an empty payload is a legal payload
+		}
+		return s
+	}
 	join := func(r, s int) Step {
 		if r == s {
 			return Step{Op: "joinself", R: r}
@@ -473,26 +479,39 @@ func (x *Exec) burst(s Step) StepResult {
 	res.BurstSeen = map[string]bool{}
 	var wg sync.WaitGroup
 	stop := make(chan struct{})
-	wg.Add(1)
-	go func() { // merger
-		defer wg.Done()
-		for round := 0; ; round++ {
-			for r, o := range x.Logs {
-				if r == s.R {
-					continue
+	var emu sync.Mutex
+	for m := 0; m < 2; m++ { // two mergers, each taking every other replica: merges INTO one log also overlap each other
+		m := m
+		wg.Add(1)
+		go func() {
+			defer wg.Done()
+			for round := 0; round < 1; round++ { // ONE pass: a repeated merge would heal (hide) a lost update of the heads
+				any := false
+				for r, o := range x.Logs {
+					if r == s.R || r%2 != m {
+						continue
+					}
+					any = true
+					select {
+					case <-stop:
+						return
+					default:
+					}
+					if _, err := l.Join(o, -1); err != nil {
+						emu.Lock()
+						if res.Err == nil {
+							res.Err = err
+						}
+						emu.Unlock()
+					}
+					runtime.Gosched()
 				}
-				select {
-				case <-stop:
+				if !any {
 					return
-				default:
 				}
-				if _, err := l.Join(o, -1); err != nil && res.Err == nil {
-					res.Err = err
-				}
-				runtime.Gosched()
 			}
-		}
-	}()
+		}()
+	}
 	var rmu sync.Mutex
 	wg.Add(1)
 	go func() { // reader
